@@ -38,6 +38,8 @@ def run(col, configs, tier):
         guarded(col, X.rule_compare_decodes, facts)
         guarded(col, X.rule_exponent_narrowing, facts)
         guarded(col, X.rule_denormal_shift, facts)
+        guarded(col, X.rule_overflow_check_unconditional, facts)
+        guarded(col, X.rule_power_index_guards, facts)
         from rules import dispatch
         guarded(col, dispatch.rule_dispatch_table, facts)
         guarded(col, X.rule_bigfloat_bits, facts)
